@@ -37,3 +37,8 @@ func VerifGroupReinit() {
 func VerifCalcReceiptsTree(receipts types.Receipts) common.Hash {
 	return calcReceiptsTree(receipts)
 }
+
+// VerifCalcTxTree exposes the transaction commitment used by header verification.
+func VerifCalcTxTree(txs []*types.Transaction) common.Hash {
+	return calcTxTree(txs)
+}
